@@ -85,6 +85,41 @@ func fmBuild(r *verifkit.R, t fmTopo) *mkMesh {
 	return m
 }
 
+// fmIdle reports whether no tunnel is live anywhere in the mesh: relay tables, stream manager
+// and exit handler of every agent are empty. (Tunnels of different connections that carry the
+// same stream id disturb each other — the C16/C17 finding — so a stream is only opened, and
+// judged, when the previous one is completely gone.)
+func fmIdle(m *mkMesh) bool {
+	for _, n := range m.nodes {
+		a := n.a
+		a.tcpRelay.mu.RLock()
+		busy := len(a.tcpRelay.byUpstream) + len(a.tcpRelay.byDownstream)
+		a.tcpRelay.mu.RUnlock()
+		a.exitHandlerMu.Lock()
+		eh := a.exitHandler
+		a.exitHandlerMu.Unlock()
+		if eh != nil && eh.ConnectionCount() != 0 {
+			busy++
+		}
+		if busy != 0 || a.streamMgr.StreamCount() != 0 || a.streamMgr.PendingCount() != 0 {
+			return false
+		}
+	}
+	return true
+}
+
+// fmSettle waits (watchdog only) until fmIdle.
+func fmSettle(m *mkMesh, maxWait time.Duration) bool {
+	deadline := time.Now().Add(maxWait)
+	for !fmIdle(m) {
+		if time.Now().After(deadline) {
+			return false
+		}
+		time.Sleep(5 * time.Millisecond)
+	}
+	return true
+}
+
 // fmEcho is a TCP echo listener on all loopback addresses.
 type fmEcho struct {
 	ln   net.Listener
